@@ -71,6 +71,21 @@ def run(ctx):
                 if r.chance(1, 10):
                     args.insert(r.below(len(args) + 1), 'nonexistent-file')
                 cases.append(vlib.Case(dn, files, opts + args, tool='basic', meta={'style': style}))
+    # option grammar: every option in every spelling, with and without its argument
+    tiny = basicprog.encode([basicprog.Line(10, [basicprog.Item('tok', 0xF1)])], True)
+    for opts in (['-D', '-'], ['-D-'], ['--dump-token-maps', '-'], ['--dump-token-maps=-'], ['--dump-token-maps'], ['--dump-token', '-'], ['--dump', '-'], ['-D'],
+                 ['-D', '@dump.out'], ['--dump-token-maps', '@dump.out'], ['--dump-token-maps=@dump.out'], ['-D', '/nonexistent-dir/x'], ['--dump-token-maps', '/nonexistent-dir/x'],
+                 ['-h'], ['--help'], ['--he'], ['-D', '-', '@a0'], ['--dump-token-maps', '-', '--dialect', 'Z80'], ['-d'], ['--dialect'], ['-l'], ['--listo'], ['--'], ['-'], []):
+        files = {'a0': tiny}
+        argv = []
+        for o in opts:
+            if '@dump.out' in o:
+                argv.append(o.replace('@dump.out', 'dump.out'))      # created in the case directory (cwd)
+            else:
+                argv.append(o)
+        ctx.count('option-grammar')
+        cases.append(vlib.Case('6502', files, argv if any(a.startswith('@') for a in argv) or not argv or argv[-1] in ('-',) or argv[0].startswith(('-D', '--d', '-h', '--he')) else argv + ['@a0'],
+                               tool='basic', stdin=tiny if '-' in argv else None, meta={'style': 'options'}))
     for kind in ('asan', 'asan-ndebug'):
         impl = ctx.build(kind)
         cs = cases if kind == 'asan' else [vlib.Case(c.tag, c.files, c.argv, tool='basic', stdin=c.stdin, meta=c.meta) for c in cases]
